@@ -159,6 +159,30 @@ Theorem C09_unsafe_pairs_parse_to_other_tree_refuted :
 Proof. vm_compute. repeat split; try reflexivity. discriminate. Qed.
 Print Assumptions C09_unsafe_pairs_parse_to_other_tree_refuted.
 
+(* ---- a hand-written checker that builds its suggestion as text: underef (model tied to the checker's printed
+   suggestions on every run, cases_c09_underef) ---- *)
+
+(* the suggestion for a selector on a parenthesised dereference of X parses to the selector on X whenever X is a primary
+   expression, and to the selector on the parenthesised X when X is itself a dereference ... *)
+Theorem C09_underef_suggestion_partial : forall x f, good x = true -> wp g0 x = true -> is_punct f = false ->
+  (level g0 x = 7 -> exists f0, forall k, f0 <= k -> parse_expr k (underef_sel_text x f) = Some (ESel x f))
+  /\ (forall y, x = EUn "*" y -> 6 <= level g0 y ->
+        exists f0, forall k, f0 <= k -> parse_expr k (underef_sel_text x f) = Some (ESel (EParen x) f)).
+Proof.
+  intros x f Hg Hw Hf. split.
+  - intros H7. exact (underef_sel_primary x f Hg Hw H7 Hf).
+  - intros y -> H6. cbn [good] in Hg. apply andb_true_iff in Hg as [_ Hgy]. cbn [wp] in Hw. apply andb_true_iff in Hw as [Hwy _].
+    exact (underef_sel_star y f Hgy Hwy H6 Hf).
+Qed.
+Print Assumptions C09_underef_suggestion_partial.
+(* ... the full statement (for EVERY operand the checker accepts) is false: any other unary operand regroups (recorded finding) *)
+Theorem C09_underef_suggestion_refuted :
+  parse_expr 20 (underef_sel_text (EUn "&" (EAtom "x")) "v") = Some (EUn "&" (ESel (EAtom "x") "v"))
+  /\ parse_expr 20 (underef_sel_text (EUn "<-" (EAtom "ch")) "v") = Some (EUn "<-" (ESel (EAtom "ch") "v"))
+  /\ underef_sel_tree (EUn "&" (EAtom "x")) "v" = ESel (EUn "&" (EAtom "x")) "v".
+Proof. exact underef_sel_unary_regroups. Qed.
+Print Assumptions C09_underef_suggestion_refuted.
+
 (* non-vacuity: a safe pair of the table with a concrete binding and context *)
 Example C09_example_prec :
   let e := {| pe_group := "x"; pe_line := 0; pe_pattern := ""; pe_template := "";
